@@ -109,6 +109,34 @@ export async function run(ctx) {
       }
     }
   }
+  // template holes whose alternatives are single characters: every 3-subset of a pool with regex
+  // metacharacters, judged on every printable ASCII character (member iff it is one of the three) -
+  // enumerated, because an accidental character class or range only shows for particular triples
+  if (ctx.shard === 1 % ctx.of) {
+    const pool = [" ", "-", "_", "+", "~", "^", "]", "[", "a", "z", "0", ",", "!", "."];
+    for (let i = 0; i < pool.length; i++)
+      for (let j = i + 1; j < pool.length; j++)
+        for (let k = j + 1; k < pool.length; k++) {
+          const trio = [pool[i], pool[j], pool[k]];
+          const text = `type X = \`<\${${trio.map((c) => JSON.stringify(c)).join(" | ")}}>\`;\nexport const Parsers = parse.buildParsers<{ X: X }>();\n`;
+          const r = await compileText(ctx, text);
+          ctx.count("single_character_hole_grid");
+          if (!r.parsers) {
+            ctx.violation({ signature: `probe-not-compiled|single-character-hole|${r.res.outcome}`, clause: "supported-program-rejected", detail: text, replay: { kind: "compile", text } });
+            continue;
+          }
+          for (let c = 32; c < 127; c++) {
+            const ch = String.fromCharCode(c);
+            const want = trio.includes(ch) ? "Y" : "N";
+            const impl = implOf(r.parsers.X, `<${ch}>`);
+            ctx.judged();
+            if (impl !== want) {
+              ctx.violation({ signature: `${impl}/${want}|tpl(single-character-alternatives)|str:one-char-${want === "N" ? "outside" : "inside"}-the-set`, clause: impl === "Y" ? "accepts-non-member" : "rejects-member", detail: `${text}on ${JSON.stringify(`<${ch}>`)}: validator ${impl}, TypeScript ${want}`, replay: { kind: "pair", text, parser: "X", value: `<${ch}>`, expect: want } });
+              break;
+            }
+          }
+        }
+  }
   // probes (shard 0 only)
   if (ctx.shard === 0) {
     for (const p of PROBES) {
